@@ -147,6 +147,11 @@ def lua_stack_balance(rep: C.Report) -> None:
                     return {"fpop": 1}
                 if is_stack(a0, "lua_env_stack"):
                     return {"epop": 1}
+            # the same test written as truthiness: `if stack: stack.pop()`
+            if not pol and is_stack(test, "lua_frame_stack"):
+                return {"fpop": 1}
+            if not pol and is_stack(test, "lua_env_stack"):
+                return {"epop": 1}
             return None
 
         enc = AP.Encoder(fn, ["fpush", "fpop", "epop"], delta, branch=branch).run()
